@@ -1,0 +1,42 @@
+//go:build verif
+
+// Machine-checked contracts for package shape (comment-only file; see /verif/DESIGN.md).
+package shape
+
+//@ func CheckZoom
+//@   props C01 C02 C03 C04 C15
+//@   ensures r0 <==> (0 <= zoom && zoom <= 35)
+//@ end
+
+//@ -- C10: notation conversions are component permutations; arity errors are reported
+//@ func ConvertSpatialIdsToExtendedSpatialIds
+//@   props C10 C03 C04 C02 C15
+//@   ensures [err-iff-arity] r1 == nil <==> (forall k :: 0 <= k && k < len(spatialIds) ==> nf(spatialIds[k]) == 4)
+//@   ensures [permutation] r1 == nil ==> len(r0) == len(spatialIds) && (forall k :: 0 <= k && k < len(spatialIds) ==> r0[k] == str5(fld(spatialIds[k], 0), fld(spatialIds[k], 2), fld(spatialIds[k], 3), fld(spatialIds[k], 0), fld(spatialIds[k], 1)))
+//@   loop 0 invariant len(resultIds) == $i && (forall k :: 0 <= k && k < $i ==> nf(spatialIds[k]) == 4 && resultIds[k] == str5(fld(spatialIds[k], 0), fld(spatialIds[k], 2), fld(spatialIds[k], 3), fld(spatialIds[k], 0), fld(spatialIds[k], 1)))
+//@ end
+
+//@ func ConvertExtendedSpatialIdsToSpatialIds
+//@   props C10 C03 C04 C01 C06 C15
+//@   ensures [err-iff-arity] r1 == nil <==> (forall k :: 0 <= k && k < len(extendedSpatialIds) ==> nf(extendedSpatialIds[k]) == 5)
+//@   ensures [permutation] r1 == nil ==> len(r0) == len(extendedSpatialIds) && (forall k :: 0 <= k && k < len(extendedSpatialIds) ==> r0[k] == str4(fld(extendedSpatialIds[k], 0), fld(extendedSpatialIds[k], 4), fld(extendedSpatialIds[k], 1), fld(extendedSpatialIds[k], 2)))
+//@   loop 0 invariant len(resultIds) == $i && (forall k :: 0 <= k && k < $i ==> nf(extendedSpatialIds[k]) == 5 && resultIds[k] == str4(fld(extendedSpatialIds[k], 0), fld(extendedSpatialIds[k], 4), fld(extendedSpatialIds[k], 1), fld(extendedSpatialIds[k], 2)))
+//@ end
+
+//@ lemma C10_spatial_to_extended_and_back_is_identity
+//@   props C10
+//@   var l strs
+//@   call e, err1 := ConvertSpatialIdsToExtendedSpatialIds(l)
+//@   assume err1 == nil
+//@   call b, err2 := ConvertExtendedSpatialIdsToSpatialIds(e)
+//@   assert err2 == nil && len(b) == len(l) && (forall k :: 0 <= k && k < len(l) ==> b[k] == l[k])
+//@ end
+
+//@ lemma C10_extended_to_spatial_and_back_needs_equal_zooms
+//@   props C10
+//@   var l strs
+//@   call b, err1 := ConvertExtendedSpatialIdsToSpatialIds(l)
+//@   assume err1 == nil
+//@   call e, err2 := ConvertSpatialIdsToExtendedSpatialIds(b)
+//@   assert err2 == nil && len(e) == len(l) && (forall k :: 0 <= k && k < len(l) ==> (fld(l[k], 0) == fld(l[k], 3) ==> e[k] == l[k]))
+//@ end
